@@ -112,6 +112,19 @@ Fixpoint join_sp (ws : list str) : str :=
 
 (* windows.join on a list of plain strings *)
 Definition join (args : list str) : str := join_sp (map (quote false) args).
+
+(* windows.join on a list of safe_str values (str, shell_literal, jbos, other): quote(i) for every
+   element, None = TypeError *)
+Fixpoint quote_all (xs : list sarg) : option (list str) :=
+  match xs with
+  | [] => Some []
+  | x :: r => match quote_info false x with
+              | None => None
+              | Some (t, _) => match quote_all r with None => None | Some ts => Some (t :: ts) end
+              end
+  end.
+Definition join_sargs (xs : list sarg) : option str :=
+  match quote_all xs with None => None | Some ts => Some (join_sp ts) end.
 End Quote.
 
 (* ---- _tokenize / split (no regex, no Unicode dependence) ---- *)
